@@ -69,6 +69,9 @@ func genC16(r *Rng, tier string) *World {
 	w.Schemas = append(w.Schemas, base)
 	w.Params["base_tests"] = r.Intn(4)
 	w.Params["base_pts"] = r.Intn(3)
+	if r.P(0.3) {
+		w.Params["nil_base"] = 1
+	}
 	for i := 0; i < 1+r.Intn(2); i++ {
 		e := mk("e"+strconv.Itoa(i), 1+r.Intn(2))
 		if r.P(0.4) {
@@ -188,6 +191,13 @@ func runC16(x *X) *Violation {
 		bm.pts = append(bm.pts, cb)
 	}
 	live := []*c16live{{real: breal, m: bm}}
+	if w.P("nil_base") == 1 {
+		// a field-less schema built from a nil map that only carries a struct-level test: valid, and a valid operand
+		nb := z.Struct(nil)
+		cb := c16cb{ID: 9200, Kind: "test", Fail: false}
+		addCB(nb, cb)
+		live = append(live, &c16live{real: nb, m: &c16model{fields: map[string]z.ZogSchema{}, tests: []c16cb{cb}, from: -1, owner: -1}})
+	}
 
 	// probe inputs: one mostly valid, one mostly absent
 	probes := []map[string]any{{}, {}}
@@ -330,96 +340,107 @@ func runC16(x *X) *Violation {
 			}
 		}
 		x.R.InOp = true
-		switch op.Arg {
-		case "pick":
-			m := newm()
-			for _, k := range keys {
-				m.fields[k] = src.m.fields[k]
-			}
-			live = append(live, &c16live{real: src.real.Pick(args...), m: m})
-		case "omit":
-			m := newm()
-			drop := map[string]bool{}
-			for _, k := range keys {
-				drop[k] = true
-			}
-			for k, v := range src.m.fields {
-				if !drop[k] {
+		var builderPanic string
+		func() {
+			defer func() {
+				if p := recover(); p != nil {
+					builderPanic = panicString(p)
+				}
+			}()
+			switch op.Arg {
+			case "pick":
+				m := newm()
+				for _, k := range keys {
+					m.fields[k] = src.m.fields[k]
+				}
+				live = append(live, &c16live{real: src.real.Pick(args...), m: m})
+			case "omit":
+				m := newm()
+				drop := map[string]bool{}
+				for _, k := range keys {
+					drop[k] = true
+				}
+				for k, v := range src.m.fields {
+					if !drop[k] {
+						m.fields[k] = v
+					}
+				}
+				live = append(live, &c16live{real: src.real.Omit(args...), m: m})
+			case "extend":
+				ei := 1 + op.Schema%max(1, len(w.Schemas)-1)
+				if ei >= len(w.Schemas) {
+					break
+				}
+				m := newm()
+				for k, v := range src.m.fields {
 					m.fields[k] = v
 				}
-			}
-			live = append(live, &c16live{real: src.real.Omit(args...), m: m})
-		case "extend":
-			ei := 1 + op.Schema%max(1, len(w.Schemas)-1)
-			if ei >= len(w.Schemas) {
-				break
-			}
-			m := newm()
-			for k, v := range src.m.fields {
-				m.fields[k] = v
-			}
-			ext := z.Schema{}
-			for _, f := range w.Schemas[ei].Fields {
-				o := objs[strconv.Itoa(ei)+"/"+f.Key]
-				ext[f.Key] = o
-				m.fields[f.Key] = o
-			}
-			live = append(live, &c16live{real: src.real.Extend(ext), m: m})
-		case "merge":
-			oi := op.Schema % len(live)
-			other := live[oi]
-			m := &c16model{fields: map[string]z.ZogSchema{}, owner: c, from: srcIdx}
-			for k, v := range src.m.fields {
-				m.fields[k] = v
-			}
-			for k, v := range other.m.fields {
-				m.fields[k] = v
-			}
-			m.tests = append(append([]c16cb(nil), src.m.tests...), other.m.tests...)
-			m.pts = append(append([]c16cb(nil), src.m.pts...), other.m.pts...)
-			desc += fmt.Sprintf(" other=#%d", oi)
-			var more []*z.StructSchema
-			if op.Collect == "mixed" || op.Collect == "map" {
-				// Merge(other, others...): later operands win, tests and transforms are concatenated in order
-				for k := 1; k <= 1+op.ErrAt; k++ {
-					o2 := live[(oi+k)%len(live)]
-					for kk, v := range o2.m.fields {
-						m.fields[kk] = v
+				ext := z.Schema{}
+				for _, f := range w.Schemas[ei].Fields {
+					o := objs[strconv.Itoa(ei)+"/"+f.Key]
+					ext[f.Key] = o
+					m.fields[f.Key] = o
+				}
+				live = append(live, &c16live{real: src.real.Extend(ext), m: m})
+			case "merge":
+				oi := op.Schema % len(live)
+				other := live[oi]
+				m := &c16model{fields: map[string]z.ZogSchema{}, owner: c, from: srcIdx}
+				for k, v := range src.m.fields {
+					m.fields[k] = v
+				}
+				for k, v := range other.m.fields {
+					m.fields[k] = v
+				}
+				m.tests = append(append([]c16cb(nil), src.m.tests...), other.m.tests...)
+				m.pts = append(append([]c16cb(nil), src.m.pts...), other.m.pts...)
+				desc += fmt.Sprintf(" other=#%d", oi)
+				var more []*z.StructSchema
+				if op.Collect == "mixed" || op.Collect == "map" {
+					// Merge(other, others...): later operands win, tests and transforms are concatenated in order
+					for k := 1; k <= 1+op.ErrAt; k++ {
+						o2 := live[(oi+k)%len(live)]
+						for kk, v := range o2.m.fields {
+							m.fields[kk] = v
+						}
+						m.tests = append(m.tests, o2.m.tests...)
+						m.pts = append(m.pts, o2.m.pts...)
+						more = append(more, o2.real)
+						desc += fmt.Sprintf(",#%d", (oi+k)%len(live))
 					}
-					m.tests = append(m.tests, o2.m.tests...)
-					m.pts = append(m.pts, o2.m.pts...)
-					more = append(more, o2.real)
-					desc += fmt.Sprintf(",#%d", (oi+k)%len(live))
+				}
+				live = append(live, &c16live{real: src.real.Merge(other.real, more...), m: m})
+			case "test", "pt":
+				cbid++
+				cb := c16cb{ID: c*100 + cbid, Kind: op.Arg, Fail: op.ErrAt == 1 && op.Arg == "test"}
+				addCB(src.real, cb)
+				if op.Arg == "test" {
+					src.m.tests = append(src.m.tests, cb)
+				} else {
+					src.m.pts = append(src.m.pts, cb)
+				}
+				src.m.ext++
+				root := srcIdx
+				for live[root].m.from >= 0 {
+					root = live[root].m.from
+				}
+				if extendedBy[root] == nil {
+					extendedBy[root] = map[int]bool{}
+				}
+				if srcIdx != root {
+					extendedBy[root][srcIdx] = true
+				}
+				if len(extendedBy[root]) >= 2 {
+					x.NonTrivial = true
+					x.Probes["derived_after_sibling_extended"]++
 				}
 			}
-			live = append(live, &c16live{real: src.real.Merge(other.real, more...), m: m})
-		case "test", "pt":
-			cbid++
-			cb := c16cb{ID: c*100 + cbid, Kind: op.Arg, Fail: op.ErrAt == 1 && op.Arg == "test"}
-			addCB(src.real, cb)
-			if op.Arg == "test" {
-				src.m.tests = append(src.m.tests, cb)
-			} else {
-				src.m.pts = append(src.m.pts, cb)
-			}
-			src.m.ext++
-			root := srcIdx
-			for live[root].m.from >= 0 {
-				root = live[root].m.from
-			}
-			if extendedBy[root] == nil {
-				extendedBy[root] = map[int]bool{}
-			}
-			if srcIdx != root {
-				extendedBy[root][srcIdx] = true
-			}
-			if len(extendedBy[root]) >= 2 {
-				x.NonTrivial = true
-				x.Probes["derived_after_sibling_extended"]++
-			}
-		}
+		}()
 		x.R.InOp = false
 		x.Ops++
+		if builderPanic != "" {
+			return &Violation{Class: "C16/builder-call-panicked op=" + op.Arg, Detail: fmt.Sprintf("step %q: %s", desc, builderPanic)}
+		}
 		if len(live) > 12 {
 			live = live[:12]
 		}
